@@ -401,7 +401,7 @@ def _is_err(impl_obs):
 
 def finding_id(c, impl_obs, kind):
     """Known-finding class of a FAILING case, decided from the case structure: the id is returned only when the
-    mechanism of that finding is what makes THIS request fail.  Both known findings are REFUSALS of requests that
+    mechanism of that finding is what makes THIS request fail.  The one known finding is a REFUSAL of requests that
     are computable from the provided names; an uncomputable request that is answered, a wrong value, or a
     sub-pipeline / call set that is not exactly the needed one is never known."""
     if c["kind"] == "map2":
@@ -428,12 +428,6 @@ def finding_id(c, impl_obs, kind):
                 continue
             if seen.setdefault(k, v) != v and k in prod:            # a provided intermediate name, producer cut off
                 return "c11-inconsistent-dead-defaults"
-    if c["kind"] == "map":                                          # _validate_complete_inputs: extra inputs
-        new_roots = {cur for n in needed for cur, _ in byname[n]["params"]
-                     if cur not in byname[n]["bound"] and cur not in needed_outs}
-        for m in sorted(I - new_roots):
-            if m in prod and prod[m] in needed:
-                return "c11-map-rejects-supplied-output-of-kept-function"
     return None
 
 
